@@ -15,18 +15,22 @@ LEVEL = {'C11': 'exploration', 'C12': 'exploration', 'C15': 'exploration',
 PLANS = {
     'C16': {'quick': [('seq', 2500), ('threads', 2500),
                       ('threads_toggle', 1500), ('long', 250),
-                      ('long_faulty', 150)],
+                      ('long_faulty', 150), ('threads_mirror', 1200)],
             'thorough': [('seq', 60000), ('threads', 70000),
                          ('threads_toggle', 50000), ('long', 6000),
-                         ('long_faulty', 4000)]},
-    'C12': {'quick': [('seq', 2500), ('threads', 2500)],
-            'thorough': [('seq', 60000), ('threads', 80000)]},
-    'C15': {'quick': [('seq', 3000), ('threads', 2000), ('boot', 48)],
-            'thorough': [('seq', 80000), ('threads', 60000), ('boot', 600)]},
+                         ('long_faulty', 4000), ('threads_mirror', 40000)]},
+    'C12': {'quick': [('seq', 2500), ('threads', 2000),
+                      ('threads_mirror', 1500)],
+            'thorough': [('seq', 60000), ('threads', 60000),
+                         ('threads_mirror', 40000)]},
+    'C15': {'quick': [('seq', 3000), ('threads', 2000), ('boot', 48),
+                      ('threads_mirror', 800)],
+            'thorough': [('seq', 80000), ('threads', 60000), ('boot', 600),
+                         ('threads_mirror', 20000)]},
     'C11': {'quick': [('seq', 3000), ('threads_toggle', 1500),
-                      ('sweep', 282)],
+                      ('sweep', 282), ('threads_mirror', 800)],
             'thorough': [('seq', 80000), ('threads_toggle', 50000),
-                         ('sweep', 282)]},
+                         ('sweep', 282), ('threads_mirror', 20000)]},
 }
 CAT_SIZE = {'quick': 1000, 'thorough': 3500}
 
